@@ -132,6 +132,10 @@ class World:
             return {"list": [self.snap(x, depth + 1) for x in v]}
         if isinstance(v, dict):
             return {"dict": [[repr(k), self.snap(x, depth + 1)] for k, x in v.items()]}
+        if type(v).__name__ == "UserDict":
+            return {"userdict": [[repr(k), self.snap(x, depth + 1)] for k, x in v.items()]}
+        if type(v).__name__ == "deque":
+            return {"deque": [self.snap(x, depth + 1) for x in v]}
         if self.K is not None and v is self.K:
             return {"v": "<the class>"}
         if self.obj is not None and v is self.obj:
@@ -221,6 +225,14 @@ class World:
             out = ["foo", of]
         elif shape == "dict":
             out = {"k": of, "s": "foo"}
+        elif shape == "userdict":  # mapping / sequence types that are not the builtin ones
+            import collections
+
+            out = collections.UserDict({"k": of, "s": "foo"})
+        elif shape == "deque":
+            import collections
+
+            out = collections.deque(["foo", of])
         elif shape == "nested":
             out = ("foo", {"k": of})
         elif shape == "pair":
@@ -329,6 +341,8 @@ def callable_getter(shape):
         "tuple": lambda x: x[1],
         "list": lambda x: x[1],
         "dict": lambda x: x["k"],
+        "userdict": lambda x: x["k"],
+        "deque": lambda x: x[1],
         "nested": lambda x: x[1]["k"],
         "pair": lambda x: x[0],
     }[shape]
